@@ -389,6 +389,32 @@ func TestVerifC04(t *testing.T) {
 			n++
 		}
 	}
+	// many copyright notices above a license: the Copyright pseudo-matches agree on confidence and token
+	// span and differ in their lines only; with more than a dozen candidates the sort is not a stable
+	// insertion sort any more — repeated calls must still agree (also compared across processes)
+	for ci, nc := range []int{9, 14, 23} {
+		var sb strings.Builder
+		for k := 0; k < nc; k++ {
+			fmt.Fprintf(&sb, "Copyright %d Contributor Number %d\n", 1990+k, k)
+		}
+		in := append([]byte(sb.String()), vnamed("License/MIT/a.txt")[0].data...)
+		first := vshowResults(c.Match(in))
+		what := ""
+		for i := 1; i < 40 && what == ""; i++ {
+			if got := vshowResults(c.Match(in)); got != first {
+				what = fmt.Sprintf("call %d on the same bytes differs from the first: %s vs %s", i, got, first)
+			}
+		}
+		if what == "" {
+			if got := vshowResults(c2.Match(in)); got != first {
+				what = fmt.Sprintf("instance built in reverse insertion order differs: %s vs %s", got, first)
+			}
+		}
+		id := fmt.Sprintf("hist_copyrights%d", ci)
+		o.verdict("C04", id, what == "", true, id, map[string]interface{}{"what": vclip(what), "input_hex": vclip(hx(in))})
+		o.corr("xproc:match", id, []string{vhash(in)}, first)
+		n++
+	}
 	// a document with a periodic stretch (xx yy xx yy …) and an input in which one target run equals the
 	// source at two source positions with the same length and the same target start: the order of such
 	// runs (map iteration + unstable sort) must not reach the result — repeated calls and separately
@@ -546,10 +572,14 @@ func vallDashes(in []byte, form string) []byte {
 }
 
 // vhyphenEOL reports whether some line ends in a hyphen (C05's exemption).
+func vhyphenLine(l string) bool {
+	t := strings.TrimRight(l, " \t\r")
+	return strings.HasSuffix(t, "-") || strings.HasSuffix(t, "‐") || strings.HasSuffix(t, "–") || strings.HasSuffix(t, "—") || strings.HasSuffix(t, "‒")
+}
+
 func vhyphenEOL(in []byte) bool {
 	for _, l := range strings.Split(string(in), "\n") {
-		t := strings.TrimRight(l, " \t\r")
-		if strings.HasSuffix(t, "-") || strings.HasSuffix(t, "‐") || strings.HasSuffix(t, "–") || strings.HasSuffix(t, "—") || strings.HasSuffix(t, "‒") {
+		if vhyphenLine(l) {
 			return true
 		}
 	}
@@ -854,6 +884,34 @@ func vmetaInputs(r *vrand, n int) []vinput {
 			out = append(out, vinput{id: fmt.Sprintf("xc%d", i), data: d.data})
 		}
 	}
+	// words hyphenated across a line break whose remainder stands alone on the next line (the way a
+	// justified text wraps): the lines that do not end in a hyphen take the line-end changes
+	for i, d := range vnamed("License/MIT/a.txt", "License/ISC/license.txt", "License/BSD-3-Clause/a.txt") {
+		if vthorough() || i == int(vseed()%3) || i == 0 {
+			rr := r.fork(uint64(720 + i))
+			// (a wrapped word right before the first line of the license, and a copyright notice on the
+			// line after every other remainder: what a remainder line leaves behind shows there)
+			nsplit := 0
+			data := vmapLines(d.data, func(li int, l string) string {
+				fs := strings.Fields(l)
+				if len(fs) < 3 || !rr.chance(1, 3) {
+					return l
+				}
+				w := fs[len(fs)-1]
+				if len(w) < 6 || !visAlpha(w) {
+					return l
+				}
+				nsplit++
+				out := strings.Join(fs[:len(fs)-1], " ") + " " + w[:3] + "-\n" + w[3:]
+				if nsplit%2 == 1 {
+					out += fmt.Sprintf("\nCopyright %d Holder Number %d", 2000+nsplit, nsplit)
+				}
+				return out
+			})
+			data = append([]byte("Copyright 2020 Example Holder\nthis file carries certain modifi-\ncations\n"), data...)
+			out = append(out, vinput{id: fmt.Sprintf("xh%d", i), data: data})
+		}
+	}
 	// a text of many read chunks (the tokenizer reads 1 KiB at a time)
 	for _, d := range vnamed("License/GPL-2.0/a.txt") {
 		out = append(out, vinput{id: "xl0", data: d.data})
@@ -913,16 +971,35 @@ func vrunMeta(t *testing.T, prop string) {
 			if tr.prop != prop {
 				continue
 			}
-			if prop == "C05" && baseHyphen {
-				continue // exempt: a hyphen before a line break joins word halves
-			}
 			r0 := &vrand{s: r.s}
 			rr := r.fork(uint64(ti)*7919 + uint64(len(in.data)))
-			data := tr.apply(rr, in.data)
-			if bytes.Equal(data, in.data) {
-				continue
+			var data []byte
+			if prop == "C05" && baseHyphen {
+				// lines that end in a hyphen are exempt (a hyphen before a line break joins word halves);
+				// the OTHER lines of such a text are not: the changes that touch line ends only are applied
+				// to them, the hyphen-ended lines stay byte for byte as they are
+				var end string
+				switch tr.name {
+				case "trailing-blanks":
+					end = []string{" ", "\t", "  "}[rr.intn(3)]
+				case "crlf":
+					end = "\r"
+				default:
+					continue
+				}
+				data = vmapLines(in.data, func(i int, l string) string {
+					if vhyphenLine(l) || strings.TrimSpace(l) == "" {
+						return l
+					}
+					return l + end
+				})
+			} else {
+				data = tr.apply(rr, in.data)
+				if prop == "C05" && vhyphenEOL(data) {
+					continue
+				}
 			}
-			if prop == "C05" && vhyphenEOL(data) {
+			if bytes.Equal(data, in.data) {
 				continue
 			}
 			got := c.Match(data)
@@ -1281,7 +1358,20 @@ func TestVerifC07(t *testing.T) {
 		}
 		for _, n := range []int{100, 60, 145} {
 			ws := strings.Fields(mk(n))
-			for vi, w := range [][]string{ws[:n*4/5], ws[n/5:]} {
+			variants := [][]string{ws[:n*4/5], ws[n/5:]}
+			// noisy partial copies: a few words missing near the start and a stretch in which every third
+			// word is replaced (each replacement costs one word of distance but keeps three or four words
+			// from being claimed by any q-gram): the number of claimed words lands around 0.8 times the
+			// length of X, below 0.8 times the length of the document, at a word distance well under 20 %
+			for _, pct := range []int{8, 11, 14, 17, 20} {
+				x := append(append([]string(nil), ws[:4]...), ws[4+n/20:]...)
+				from, c := len(x)/3, n*pct/100
+				for j := from; j < from+c && j < len(x); j += 3 {
+					x[j] = voovWords[j%len(voovWords)]
+				}
+				variants = append(variants, x)
+			}
+			for vi, w := range variants {
 				X := []byte(strings.Join(w, " ") + "\n")
 				base := cs.Match(X)
 				for pi, pad := range [][2]string{{voovBlock(r, 3), ""}, {voovBlock(r, 13), ""}, {voovLine(r, 6) + "\n", voovLine(r, 1) + "\n"}, {voovBlock(r, 2), voovBlock(r, 2)}} {
@@ -1716,6 +1806,11 @@ func TestVerifC10(t *testing.T) {
 	// also just below 1 where the q derived from the threshold is astronomically large)
 	inputs = append(inputs, vinput{id: "noticeself0", data: []byte("one two three")}, vinput{id: "noticeself1", data: vcorpus[0].data},
 		vinput{id: "noticeself2", data: append([]byte("zyxqv qwrtzp\n"), vcorpus[0].data...)})
+	// directed: words that begin like a URL scheme but are shorter than it, the capital letter as is
+	// (Normalize keeps it) or as an entity (Match / AddContent decode it after lower-casing)
+	for i, s := range []string{"Https:", "Https:/", "&#72;ttps:", "&#x48;ttps:/", "see Https: and &#72;ttps:/ x", "Http:", "&#72;ttps://", "Https://"} {
+		inputs = append(inputs, vinput{id: fmt.Sprintf("noticescheme%d", i), data: []byte(s)})
+	}
 	// directed: out-of-vocabulary words only (every id 0), alone and after a notice line
 	for i, s := range []string{"foo bar baz", "zzz", "some words\nnobody has ever put\ninto the dictionary", "Copyright 2020 somebody\nqqq www eee rrr", "qq ww ee rr tt yy uu ii oo pp aa ss dd ff gg hh jj kk ll"} {
 		inputs = append(inputs, vinput{id: fmt.Sprintf("noticeoov%d", i), data: []byte(s)})
@@ -1899,6 +1994,25 @@ func TestVerifC11(t *testing.T) {
 			return l
 		})
 		inputs = append(inputs, vinput{id: fmt.Sprintf("ucmark%d", i), data: t})
+	}
+	// the same marker-like word capitalised and in lower case, at a line start and inside running text
+	// ("B. …" paragraphs and "see b. below"; MPL-1.1's "a." sub-clauses and "Exhibit A."): what is
+	// decided for a word at one position must not be reused at another
+	for i, d := range vnamed("License/MPL-1.1/license.txt", "License/MIT/a.txt", "License/ISC/license.txt") {
+		t := d.data
+		if i > 0 {
+			k := 0
+			t = vmapLines(d.data, func(li int, l string) string {
+				f := strings.Fields(l)
+				if len(f) > 3 && li%4 == 1 && !visNotice(l) && !vhyphenLine(l) {
+					k++
+					m := string(rune('A' + k%3))
+					return m + ". " + strings.Join(f[:2], " ") + " see " + strings.ToLower(m) + ". and " + m + ". below " + strings.Join(f[2:], " ")
+				}
+				return l
+			})
+		}
+		inputs = append(inputs, vinput{id: fmt.Sprintf("lettered%d", i), data: t})
 	}
 	for i, d := range vnamed("Header/Apache-2.0/header.txt", "License/Apache-2.0/pristine.txt", "License/GPL-2.0/a.txt") {
 		t := strings.ReplaceAll(strings.ReplaceAll(string(d.data), "2.0", "2.0.."), "Version 2,", "Version 2..,")
